@@ -13,9 +13,9 @@ namespace Pegtl
 def RepTracked (cx : Ctx) (p : Cursor) : Prop := ∃ c, Tracked cx c ∧ p = cx.rep c
 
 def EvTracked (cx : Ctx) : Ev → Prop
-  | .enter _ _ _ c => RepTracked cx c
+  | .enter _ _ _ c _ => RepTracked cx c
   | .exit _ _ c => RepTracked cx c
-  | .start _ c => RepTracked cx c
+  | .start _ c _ => RepTracked cx c
   | .success _ c => RepTracked cx c
   | .failure _ c => RepTracked cx c
   | .unwind _ c => RepTracked cx c
@@ -25,12 +25,13 @@ def EvTracked (cx : Ctx) : Ev → Prop
   | .sctor _ => True
   | .ssucc _ c _ => RepTracked cx c
   | .sdtor _ => True
+  | .ruleApply _ _ b e => RepTracked cx b ∧ RepTracked cx e
 
 /-- Where an exception was created. -/
 def Origin : Exc → List Ev → Prop
   | .parse i p, raw => Ev.raise i p ∈ raw
   | .nested _ _ inner, raw => Origin inner raw
-  | .foreign k _, raw => ∃ e ∈ raw, (∃ sd b c, e = Ev.apply k sd b c) ∨ (∃ sd c, e = Ev.apply0 k sd c)
+  | .foreign k _, raw => ∃ e ∈ raw, (∃ sd b c, e = Ev.apply k sd b c) ∨ (∃ sd c, e = Ev.apply0 k sd c) ∨ (∃ sd b c, e = Ev.ruleApply k sd b c)
 
 theorem Origin.mono {x : Exc} {a b : List Ev} (h : Origin x a) (hs : ∀ e, e ∈ a → e ∈ b) : Origin x b := by
   induction x with
@@ -44,6 +45,18 @@ structure TInv (cx : Ctx) (st : St) (r : Ret) : Prop where
   trk : Tracked cx st.cur → Tracked cx r.st.cur
   evs : Tracked cx st.cur → ∀ e ∈ r.raw, EvTracked cx e
   org : ∀ x, r.res = .thr x → Origin x r.raw
+
+theorem EvTracked_withCtl {cx : Ctx} {k : Nat} {e : Ev} (h : EvTracked (cx.withCtl k) e) : EvTracked cx e := by
+  cases e <;> exact h
+
+theorem TInv.ofCtl {cx : Ctx} {k : Nat} {st : St} {r : Ret} (h : TInv (cx.withCtl k) st r) : TInv cx st r :=
+  ⟨h.trk, fun ht e he => EvTracked_withCtl (h.evs ht e he), h.org⟩
+
+theorem EvTracked_toCtl {cx : Ctx} {k : Nat} {e : Ev} (h : EvTracked cx e) : EvTracked (cx.withCtl k) e := by
+  cases e <;> exact h
+
+theorem TInv.toCtl {cx : Ctx} {k : Nat} {st : St} {r : Ret} (h : TInv cx st r) : TInv (cx.withCtl k) st r :=
+  ⟨h.trk, fun ht e he => EvTracked_toCtl (h.evs ht e he), h.org⟩
 
 def TRec (cx : Ctx) (rec : Rec) : Prop := ∀ j a m env st r, rec j a m env st = some r → TInv cx st r
 
@@ -376,6 +389,44 @@ theorem TInv.scope {cx : Ctx} {st : St} {r : Ret} (h : TInv cx st r) (o : Nat) (
       subst he; trivial
   org := fun x hx => (h.org x hx).mono (fun e he => by unfold stateScope; simp [he])
 
+/-- Rule-level action calls: tracked positions, and a thrown exception comes from one of the calls. -/
+theorem runActs_t (cx : Ctx) (sd : Nat) (b e : Cursor) (hb : RepTracked cx (cx.rep b)) (he : RepTracked cx (cx.rep e)) :
+    ∀ acts : List RuleAct, (∀ ev ∈ (runActs cx sd b e acts).2, EvTracked cx ev) ∧
+      (∀ x, (runActs cx sd b e acts).1 = .thr x → Origin x (runActs cx sd b e acts).2)
+  | [] => ⟨fun ev h => by simp [runActs] at h, fun x h => by simp [runActs] at h⟩
+  | y :: ys => by
+    have ih := runActs_t cx sd b e hb he ys
+    simp only [runActs]
+    split
+    · refine ⟨fun ev h => ?_, fun x h => ?_⟩
+      · simp only [List.mem_singleton] at h; subst h; exact ⟨hb, he⟩
+      · simp only [Res.thr.injEq] at h; subst h
+        exact ⟨_, List.mem_singleton.mpr rfl, Or.inr (Or.inr ⟨_, _, _, rfl⟩)⟩
+    · split
+      · refine ⟨fun ev h => ?_, fun x h => by simp at h⟩
+        simp only [List.mem_singleton] at h; subst h; exact ⟨hb, he⟩
+      · refine ⟨fun ev h => ?_, fun x h => ?_⟩
+        · simp only [List.mem_cons] at h
+          rcases h with h | h
+          · subst h; exact ⟨hb, he⟩
+          · exact ih.1 ev h
+        · exact (ih.2 x h).mono (fun ev hev => by simp [hev])
+
+theorem runActs_origin (cx : Ctx) (sd : Nat) (b e : Cursor) :
+    ∀ (acts : List RuleAct) (x : Exc), (runActs cx sd b e acts).1 = .thr x → Origin x (runActs cx sd b e acts).2
+  | [], x => fun h => by simp [runActs] at h
+  | y :: ys, x => by
+    have ih := runActs_origin cx sd b e ys x
+    simp only [runActs]
+    split
+    · intro h
+      simp only [Res.thr.injEq] at h; subst h
+      exact ⟨_, List.mem_singleton.mpr rfl, Or.inr (Or.inr ⟨_, _, _, rfl⟩)⟩
+    · split
+      · intro h; simp at h
+      · intro h
+        exact (ih h).mono (fun ev hev => by simp [hev])
+
 theorem body_t {cx : Ctx} {rec : Rec} (hrec : TRec cx rec) (k : Nat) (kind : Kind)
     (hat : ∀ a, kind = .atom a → TrackOK cx → a.byteAtom = true) (a : AMode) (m : RMode) (env : Env) (st : St) (r : Ret)
     (h : body cx rec k kind a m env st = some r) : TInv cx st r := by
@@ -588,14 +639,76 @@ theorem body_t {cx : Ctx} {rec : Rec} (hrec : TRec cx rec) (k : Nat) (kind : Kin
   | enable c => simp only [body] at h; exact hrec _ _ _ _ _ _ h
   | disable c => simp only [body] at h; exact hrec _ _ _ _ _ _ h
   | action fam c => simp only [body] at h; exact hrec _ _ _ _ _ _ h
+  | control kc c => simp only [body] at h; exact hrec _ _ _ _ _ _ h
   | state d c =>
     simp only [body, Option.map_eq_some_iff] at h
     obtain ⟨r0, h0, rfl⟩ := h
     exact (hrec _ _ _ _ _ _ h0).scope _ _
+  | ifApply c acts =>
+    simp only [body] at h
+    split at h
+    · simp only [Option.map_eq_some_iff] at h
+      obtain ⟨r0, h0, rfl⟩ := h
+      have t := hrec _ _ _ _ _ _ h0
+      split
+      · apply TInv.guard
+        refine ⟨t.trk, fun ht ev hev => ?_, fun x hx => ?_⟩
+        · simp only [List.mem_append] at hev
+          rcases hev with hev | hev
+          · exact t.evs ht ev hev
+          · exact (runActs_t cx _ _ _ (RepTracked.of ht) (RepTracked.of (t.trk ht)) acts).1 ev hev
+        · exact (runActs_origin cx _ _ _ acts x hx).mono (fun ev hev => by simp [hev])
+      · exact t.guard _
+    · exact hrec _ _ _ _ _ _ h
+  | applyR acts =>
+    simp only [body] at h
+    split at h
+    · simp only [Option.some.injEq] at h
+      subst h
+      refine ⟨fun ht => by unfold Ret.dropOnFail; split <;> exact ht, fun ht ev hev => ?_, fun x hx => ?_⟩
+      · simp only [dropOnFail_raw] at hev
+        exact (runActs_t cx _ _ _ (RepTracked.of ht) (RepTracked.of ht) acts).1 ev hev
+      · simp only [dropOnFail_raw, dropOnFail_res] at hx ⊢
+        exact runActs_origin cx _ _ _ acts x hx
+    · simp only [Option.some.injEq] at h
+      subst h
+      exact TInv.refl cx st .ok (by simp)
 
 end Pegtl
 
 namespace Pegtl
+
+theorem failureHook_raw_sub (cx : Ctx) (i : Nat) (c : Cursor) (r : Ret) :
+    ∀ e, e ∈ r.raw → e ∈ (failureHook cx i c r).raw := by
+  intro e he
+  unfold failureHook
+  split <;> simp [he]
+
+theorem failureHook_mem (cx : Ctx) (i : Nat) (c : Cursor) (r : Ret) (e : Ev) (he : e ∈ (failureHook cx i c r).raw) :
+    e ∈ r.raw ∨ e = Ev.failure i (cx.rep c) ∨ e = Ev.raise i (cx.rep c) := by
+  unfold failureHook at he
+  split at he
+  · simp only [List.mem_append, List.mem_cons, List.not_mem_nil, or_false] at he
+    rcases he with he | he | he
+    · exact Or.inl he
+    · exact Or.inr (Or.inl he)
+    · exact Or.inr (Or.inr he)
+  · simp only [List.mem_append, List.mem_singleton] at he
+    rcases he with he | he
+    · exact Or.inl he
+    · exact Or.inr (Or.inl he)
+
+/-- An exception out of the failure hook is the `must_if` control's own: a parse_error for this rule at the current
+    position, raised right here. -/
+theorem failureHook_thr (cx : Ctx) (i : Nat) (c : Cursor) (r : Ret) (x : Exc) (h : (failureHook cx i c r).res = .thr x) :
+    x = .parse i (cx.rep c) ∧ Ev.raise i (cx.rep c) ∈ (failureHook cx i c r).raw := by
+  unfold failureHook at h ⊢
+  split at h
+  · simp only [Res.thr.injEq] at h
+    rename_i hm
+    simp only [hm, if_true]
+    exact ⟨h.symm, by simp⟩
+  · simp at h
 
 theorem afterBody_raw_sub (cx : Ctx) (i : Nat) (a : AMode) (act : ActionSpec) (sd : Nat) (saved : Cursor) (r : Ret) :
     ∀ e, e ∈ r.raw → e ∈ (afterBody cx i a act sd saved r).raw := by
@@ -603,29 +716,36 @@ theorem afterBody_raw_sub (cx : Ctx) (i : Nat) (a : AMode) (act : ActionSpec) (s
   unfold afterBody
   split
   · simp [he]
-  · simp [he]
-  · simp only; split <;> simp [he]
+  · exact failureHook_raw_sub _ _ _ _ e he
+  · simp only; split
+    · simp [he]
+    · simp [he]
+    · exact failureHook_raw_sub _ _ _ _ e (by simp [he])
+    · simp [he]
 
 theorem afterBody_thr (cx : Ctx) (i : Nat) (a : AMode) (act : ActionSpec) (sd : Nat) (saved : Cursor) (r : Ret) (x : Exc)
     (h : (afterBody cx i a act sd saved r).res = .thr x) :
-    r.res = .thr x ∨ (x = .foreign i act.throwStd ∧ actEvent cx i act sd saved r.st.cur ∈ (afterBody cx i a act sd saved r).raw) := by
+    r.res = .thr x ∨ (x = .foreign i act.throwStd ∧ actEvent cx i act sd saved r.st.cur ∈ (afterBody cx i a act sd saved r).raw) ∨
+      (x = .parse i (cx.rep r.st.cur) ∧ Ev.raise i (cx.rep r.st.cur) ∈ (afterBody cx i a act sd saved r).raw) := by
   unfold afterBody at h ⊢
   split at h
   · left; exact h
-  · rename_i hf; simp only at h; rw [hf] at h; exact absurd h (by simp)
+  · right; right
+    exact failureHook_thr cx i _ r x h
   · rename_i hok
     simp only at h ⊢
     split at h
     · simp [hok] at h
-    · right
+    · right; left
       simp only [Res.thr.injEq] at h
       rename_i hthrows
-      simp only [hthrows]
+      simp only [hok, hthrows]
       exact ⟨h.symm, by simp⟩
-    · simp at h
+    · right; right
+      exact failureHook_thr cx i _ _ x h
     · simp [hok] at h
 
-theorem afterBody_t (cx : Ctx) (i : Nat) (a : AMode) (act : ActionSpec) (sd : Nat) (st : St) (r : Ret) (h : TInv cx st r) :
+theorem afterBody_t0 (cx : Ctx) (i : Nat) (a : AMode) (act : ActionSpec) (sd : Nat) (st : St) (r : Ret) (h : TInv cx st r) :
     TInv cx st (afterBody cx i a act sd st.cur r) := by
   refine ⟨fun ht => by simpa using h.trk ht, fun ht e he => ?_, fun x hx => ?_⟩
   · -- every event added carries the tracked start or the tracked end of the match
@@ -639,9 +759,9 @@ theorem afterBody_t (cx : Ctx) (i : Nat) (a : AMode) (act : ActionSpec) (sd : Na
       · split at he
         · simp only [List.mem_singleton] at he; subst he; exact he'
         · simp at he
-    · simp only [List.mem_append, List.mem_singleton] at he
-      rcases he with he | he
+    · rcases failureHook_mem _ _ _ _ e he with he | he | he
       · exact h.evs ht e he
+      · subst he; exact he'
       · subst he; exact he'
     · have haev : EvTracked cx (actEvent cx i act sd st.cur r.st.cur) := by
         unfold actEvent; split
@@ -660,22 +780,29 @@ theorem afterBody_t (cx : Ctx) (i : Nat) (a : AMode) (act : ActionSpec) (sd : Na
         · split at he
           · simp only [List.mem_singleton] at he; subst he; exact he'
           · simp at he
-      · simp only [List.mem_append, List.mem_cons, List.mem_singleton, List.not_mem_nil, or_false] at he
-        rcases he with he | he | he
-        · exact h.evs ht e he
-        · subst he; exact haev
+      · rcases failureHook_mem _ _ _ _ e he with he | he | he
+        · simp only [List.mem_append, List.mem_singleton] at he
+          rcases he with he | he
+          · exact h.evs ht e he
+          · subst he; exact haev
+        · subst he; exact he'
         · subst he; exact he'
       · simp only [List.mem_append, List.mem_cons, List.mem_singleton, List.not_mem_nil, or_false] at he
         rcases he with he | he | he
         · exact h.evs ht e he
         · subst he; exact haev
         · subst he; exact he'
-  · rcases afterBody_thr cx i a act sd st.cur r x hx with h1 | ⟨rfl, hmem⟩
+  · rcases afterBody_thr cx i a act sd st.cur r x hx with h1 | ⟨rfl, hmem⟩ | ⟨rfl, hmem⟩
     · exact (h.org x h1).mono (afterBody_raw_sub cx i a act sd st.cur r)
     · refine ⟨_, hmem, ?_⟩
       unfold actEvent; split
       · exact Or.inl ⟨_, _, _, rfl⟩
-      · exact Or.inr ⟨_, _, rfl⟩
+      · exact Or.inr (Or.inl ⟨_, _, rfl⟩)
+    · exact hmem
+
+theorem afterBody_t (cx : Ctx) (kc i : Nat) (a : AMode) (act : ActionSpec) (sd : Nat) (st : St) (r : Ret) (h : TInv cx st r) :
+    TInv cx st (afterBody (cx.withCtl kc) i a act sd st.cur r) :=
+  TInv.ofCtl (afterBody_t0 (cx.withCtl kc) i a act sd st r h.toCtl)
 
 theorem nodeCore_t {cx : Ctx} {rec : Rec} (hrec : TRec cx rec)
     (k i : Nat) (nd : Node) (hn : cx.g[i]? = some nd) (a : AMode) (m : RMode) (env : Env) (st : St) (r : Ret)
@@ -686,11 +813,11 @@ theorem nodeCore_t {cx : Ctx} {rec : Rec} (hrec : TRec cx rec)
   · simp only [Option.map_eq_some_iff] at h
     obtain ⟨r0, h0, rfl⟩ := h
     have tb := body_t hrec k _ (fun at' hk hok => hok.2 i nd at' hn hk) _ _ _ _ _ h0
-    have ta := afterBody_t cx i a (cx.actOf env i nd) env.sd st r0 tb
-    refine TInv.restore (r := ⟨(afterBody cx i a (cx.actOf env i nd) env.sd st.cur r0).res,
-        (afterBody cx i a (cx.actOf env i nd) env.sd st.cur r0).st,
-        Ev.start i (cx.rep st.cur) :: (afterBody cx i a (cx.actOf env i nd) env.sd st.cur r0).raw,
-        (afterBody cx i a (cx.actOf env i nd) env.sd st.cur r0).surv⟩) ?_ (by simp) (by simp)
+    have ta := afterBody_t cx env.ctl i a (cx.actOf env i nd) env.sd st r0 tb
+    refine TInv.restore (r := ⟨(afterBody (cx.withCtl env.ctl) i a (cx.actOf env i nd) env.sd st.cur r0).res,
+        (afterBody (cx.withCtl env.ctl) i a (cx.actOf env i nd) env.sd st.cur r0).st,
+        Ev.start i (cx.rep st.cur) env.ctl :: (afterBody (cx.withCtl env.ctl) i a (cx.actOf env i nd) env.sd st.cur r0).raw,
+        (afterBody (cx.withCtl env.ctl) i a (cx.actOf env i nd) env.sd st.cur r0).surv⟩) ?_ (by simp) (by simp)
       (by simpa using guardRestore_cur_cases _ st.cur _)
     refine ⟨ta.trk, fun ht e he => ?_, fun x hx => (ta.org x hx).mono (fun e he => by simp [he])⟩
     simp only [List.mem_cons] at he
@@ -741,6 +868,7 @@ theorem nodeCall_t {cx : Ctx} {rec : Rec} (hrec : TRec cx rec)
       · simp only [Option.map_eq_some_iff] at h0
         obtain ⟨r1, h1, rfl⟩ := h0
         exact (hrec _ _ _ _ _ _ h1).scope _ _
+      · exact nodeCore_t hrec k i nd hn a m _ st r0 h0
     refine ⟨fun ht => by simpa using key.trk ht, fun ht e he => ?_, fun x hx => ?_⟩
     · simp only [bracket, dropOnFail_raw, List.mem_cons, List.mem_append, List.mem_singleton] at he
       rcases he with (he | he) | he
